@@ -161,6 +161,8 @@ impl<T> Queue<T> {
     fn alloc_node(&self) -> *mut BlockNode<T> {
         let first = unsafe { &mut *self.first.unsync_load() };
         let mut last_head = unsafe { &mut *self.last_head.unsync_load() };
+        #[cfg(may_verif)]
+        crate::verif::point(crate::verif::site::SPSC_ALLOC_NODE, self as *const _ as usize);
         if !ptr::eq(first, last_head) {
             let next = unsafe { first.next.unsync_load() };
             self.first.store(next, Ordering::Relaxed);
@@ -187,6 +189,8 @@ impl<T> Queue<T> {
         let push_index = unsafe { self.tail.index.unsync_load() };
         // store the data
         tail.set(push_index, v);
+        #[cfg(may_verif)]
+        crate::verif::point(crate::verif::site::SPSC_PUSH_WRITTEN, self as *const _ as usize);
 
         // alloc new block node if the tail is full
         let new_index = push_index.wrapping_add(1);
@@ -195,6 +199,8 @@ impl<T> Queue<T> {
             let new_tail = BlockNode::new();
             #[cfg(feature = "inner_cache")]
             let new_tail = self.alloc_node();
+            #[cfg(may_verif)]
+            crate::verif::point(crate::verif::site::SPSC_PUSH_NEWBLOCK, self as *const _ as usize);
             tail.next.store(new_tail, Ordering::Relaxed);
             self.tail.block.store(new_tail, Ordering::Relaxed);
         }
@@ -227,12 +233,16 @@ impl<T> Queue<T> {
         }
 
         let head = unsafe { &mut *self.head.block.unsync_load() };
+        #[cfg(may_verif)]
+        crate::verif::point(crate::verif::site::SPSC_POP_LOADED, self as *const _ as usize);
         // get the data
         let v = head.get(index & BLOCK_MASK);
 
         let new_index = index.wrapping_add(1);
         // we need to free the old head if it get empty
         if new_index & BLOCK_MASK == 0 {
+            #[cfg(may_verif)]
+            crate::verif::point(crate::verif::site::SPSC_POP_BOUNDARY, self as *const _ as usize);
             let new_head = head.next.load(Ordering::Relaxed);
             // assert!(!new_head.is_null());
             #[cfg(not(feature = "inner_cache"))]
@@ -271,6 +281,8 @@ impl<T> Queue<T> {
 
         let head = unsafe { &mut *self.head.block.unsync_load() };
 
+        #[cfg(may_verif)]
+        crate::verif::point(crate::verif::site::SPSC_BULK_LOADED, self as *const _ as usize);
         // only pop within a block
         let end = bulk_end(index, push_index);
         let value = head.copy_to_bulk(index, end);
